@@ -157,7 +157,10 @@ def runSeq (p : Path) : List Step → FS → FS
 /-! ### one long-lived store object: stores and reads interleaved -/
 
 /-- what the application does with its store object. The object holds nothing but the path (no cache): a read is a
-    read of the file as it is at that moment. -/
+    read of the file as it is at that moment. Every access of the key-share stores is bracketed by `LockKeyshare` /
+    `UnlockKeyshare`; both only take / release the object's mutex and have NO effect on the file system (regenerated
+    fact, Oblig/C18 `gen_lock_bodies`), so `get` stands for Lock, Get, Unlock and `store` for Lock, Store, Unlock.
+    The path may be spelled in any way that names the same file; other files of the directory are other paths. -/
 inductive ObjOp where
   | get
   | store (s : Step)
@@ -168,6 +171,12 @@ def runObj (p : Path) : List ObjOp → FS → List (Option Bytes)
   | [], _ => []
   | .get :: r, fs => fs p :: runObj p r fs
   | .store s :: r, fs => runObj p r (exec (storeAtomic p s.tmp s.new) s.fault fs)
+
+/-- the file system after the sequence -/
+def runObjFS (p : Path) : List ObjOp → FS → FS
+  | [], fs => fs
+  | .get :: r, fs => runObjFS p r fs
+  | .store s :: r, fs => runObjFS p r (exec (storeAtomic p s.tmp s.new) s.fault fs)
 
 /-- the specification: a read returns the last SUCCESSFULLY stored content (`cur`; `none` = nothing stored yet) -/
 def specObj (p : Path) : List ObjOp → Option Bytes → List (Option Bytes)
